@@ -108,3 +108,30 @@ Theorem C02_qlinear_nearest_inside_range : forall c alpha x, 0 < rnum alpha -> 0
   2 * Z.abs (ql_code c alpha x * rden p - rnum p) <= rden p.
 Proof. exact ql_code_nearest_inside. Qed.
 Print Assumptions C02_qlinear_nearest_inside_range.
+
+(* ---- the source itself: the deterministic core of quantized_linear, regenerated from qkeras/quantizers.py on every run
+        (coq/gen/LinGen.v).  What get_clip_bounds / _scale_clip_and_round / __call__ compute IS the model the theorems above
+        are about, for every multi-bit configuration, every positive constant scale and every input. ---- *)
+From QV Require Import Link.LinLink.
+From QVGen Require LinGen.
+Theorem C02_source_linear_translated : LinGen.lin_translation_ok = true.
+Proof. exact link_lin_ok. Qed.
+Print Assumptions C02_source_linear_translated.
+Theorem C02_source_linear_scaled_clipped_rounded_is_the_code : forall c qs x,
+  ql_sign c = false -> 0 <= ql_ub c -> 0 < rnum qs -> 0 < rden qs -> 0 < rden x ->
+  req (LinGen.gen_ql_scaled (ql_bits c) (ql_kn c) (ql_sym c) qs x)
+      (rofZ (rround (rclip (rofZ (ql_lo c)) (rofZ (ql_hi c)) (rdiv x qs)))) = true.
+Proof. exact link_ql_scaled. Qed.
+Print Assumptions C02_source_linear_scaled_clipped_rounded_is_the_code.
+Theorem C02_source_linear_value_is_the_model : forall c alpha x,
+  ql_sign c = false -> 0 <= ql_ub c -> 0 < rnum alpha -> 0 < rden alpha -> 0 < rden x ->
+  req (LinGen.gen_ql_xq (ql_bits c) (ql_kn c) (ql_sym c) (rscale alpha (ql_se c)) x) (ql_val c alpha x) = true.
+Proof. exact link_ql_xq. Qed.
+Print Assumptions C02_source_linear_value_is_the_model.
+Theorem C02_source_linear_quantization_scale : forall c alpha,
+  LinGen.gen_ql_dts (ql_bits c) (ql_int c) (ql_kn c) = rpow2 (ql_se c) /\
+  LinGen.gen_ql_qscale true alpha (rpow2 (ql_se c)) = rmul alpha (rpow2 (ql_se c)) /\
+  LinGen.gen_ql_qscale false alpha (rpow2 (ql_se c)) = rpow2 (ql_se c) /\
+  req (rmul alpha (rpow2 (ql_se c))) (rscale alpha (ql_se c)) = true.
+Proof. intros c alpha. repeat split; [apply link_ql_dts | apply rmul_rpow2]. Qed.
+Print Assumptions C02_source_linear_quantization_scale.
